@@ -96,6 +96,13 @@ def serve_element(req: Dict[str, Any], registry: List[Dict[str, Any]], behaviour
     bound = bind(mspec, req.get('params', []))
     if bound is None:
         return Element(rid, 'lib-error', -32602, None, f'{kind}/params-do-not-bind')
+    # a method validated against a JSON schema that wants some parameters to be strings: a supplied value of another type is refused
+    supplied = req.get('params', [])
+    for pos, p in enumerate(q for q in mspec['params'] if not q.get('ctx')):
+        if p['name'] in mspec.get('schema_strings', ()):
+            given = (p['name'] in supplied) if isinstance(supplied, dict) else (isinstance(supplied, list) and pos < len(supplied))
+            if given and not isinstance(bound[p['name']], str):
+                return Element(rid, 'lib-error', -32602, None, f'{kind}/params-do-not-validate')
     execution = {'method': mspec['name'], 'args': bound}
     b = behaviours.get(mspec['name']) or mspec.get('behaviour') or {'kind': 'echo'}
     k = b['kind']
